@@ -14,7 +14,7 @@
 From Coq Require Import String List Bool ZArith Arith Lia Permutation QArith.
 From GV Require Import Base.Outcome Base.AMap Model.GState Model.Creation Model.Query Model.Derived
      Model.Partition Model.Louvain Spec.PartitionDef Proofs.WFDefs Proofs.LouvainOk Proofs.LouvainSets
-     Proofs.LouvainStructOk Proofs.LouvainGenGraphOk Proofs.LouvainConvertOk.
+     Proofs.LouvainStructOk Proofs.LouvainGenGraphOk Proofs.LouvainConvertOk Proofs.HistoryOk Spec.History.
 Import ListNotations.
 
 (* ---------------- small list facts ---------------- *)
@@ -242,3 +242,53 @@ Section Levels.
     rewrite E in H. inversion H. subst c. exact Hl.
   Qed.
 End Levels.
+
+(* ---- the hypotheses are satisfiable: an evaluated instance with two levels (a ring of four
+   pairs), so that the aggregation step and a second local-moving phase are exercised ---- *)
+Definition lv_ex_graph : outcome (gstate Z Z) :=
+  new_from_nodes_and_edges Z.eqb Z.ltb
+    (map (fun z => mknode z (None : option Z)) [1; 2; 3; 4; 5; 6; 7; 8]%Z)
+    [mkedge 1%Z 2%Z None None; mkedge 3%Z 4%Z None None; mkedge 5%Z 6%Z None None;
+     mkedge 7%Z 8%Z None None; mkedge 2%Z 3%Z None None; mkedge 6%Z 7%Z None None;
+     mkedge 1%Z 4%Z None None; mkedge 5%Z 8%Z None None; mkedge 4%Z 5%Z None None]
+    (mkspecs false DErr MCreate false true SErr).
+
+Definition lv_ex_perms : list (list nat) :=
+  [[0]; [1; 0]; [2; 0; 1]; [3; 1; 0; 2]; [4; 2; 0; 3; 1]; [5; 3; 1; 0; 2; 4]; [6; 0; 3; 1; 5; 2; 4];
+   [0; 1; 2; 3; 4; 5; 6; 7]]%nat.
+
+Definition lv_ex_levels : list (list (list Z)) :=
+  [[[2; 1]; [4; 3]; [5; 8]; [7; 6]]; [[2; 1; 4; 3]; [5; 8; 7; 6]]]%Z.
+
+Example louvain_levels_nonvacuous :
+  exists g,
+    lv_ex_graph = Ok g /\
+    WF Z.eqb Z.ltb g /\
+    louvain_partitions Z.eqb Z.ltb 10 50 g false 1 (1 # 10000000) lv_ex_perms = Ok lv_ex_levels /\
+    louvain_communities Z.eqb Z.ltb 10 50 g false 1 (1 # 10000000) lv_ex_perms = Ok [[2; 1; 4; 3]; [5; 8; 7; 6]]%Z /\
+    levels_ok (map nname (nodes_vec g)) lv_ex_levels /\
+    level_ok (map nname (nodes_vec g)) [[2; 1; 4; 3]; [5; 8; 7; 6]]%Z.
+Proof.
+  assert (Zasym : forall x y : Z, Z.ltb x y = true -> Z.ltb y x = false).
+  { intros x y H. apply Z.ltb_lt in H. apply Z.ltb_ge. lia. }
+  assert (Ztot : forall x y : Z, Z.ltb x y = false -> Z.ltb y x = false -> x = y).
+  { intros x y H1 H2. apply Z.ltb_ge in H1. apply Z.ltb_ge in H2. lia. }
+  assert (R : match lv_ex_graph with
+              | Ok g => louvain_partitions Z.eqb Z.ltb 10 50 g false 1 (1 # 10000000) lv_ex_perms = Ok lv_ex_levels
+              | _ => False
+              end) by (vm_compute; reflexivity).
+  destruct lv_ex_graph as [g|k|s|] eqn:E; try contradiction.
+  exists g. split; [reflexivity|].
+  assert (W : WF Z.eqb Z.ltb g).
+  { apply (WF_reachable Z.eqb Z.ltb Z.eqb_eq Zasym Ztot (mkspecs false DErr MCreate false true SErr)).
+    apply (new_from_reachable Z.eqb Z.ltb Z.eqb_eq _ _ _ g). exact E. }
+  split; [exact W|]. split; [exact R|].
+  destruct (louvain_communities_of_partitions Z.eqb Z.ltb Z.eqb_eq Zasym Ztot _ _ g _ _ _ _ _ W R) as [Hc Hl].
+  split; [exact Hc|]. split; [|exact Hl].
+  apply (louvain_partitions_levels_ok Z.eqb Z.ltb Z.eqb_eq Zasym Ztot _ _ g _ _ _ _ _ W R).
+Qed.
+
+Print Assumptions louvain_partitions_levels_ok.
+Print Assumptions louvain_communities_level_ok.
+Print Assumptions louvain_communities_of_partitions.
+Print Assumptions louvain_levels_nonvacuous.
